@@ -10,6 +10,7 @@ Reasons of the nogood propagator are accepted iff they are entailed by the model
 -/
 import Pumpkin.Spec.Basic
 import Pumpkin.Check.Oracle
+import Pumpkin.Model.ImplicitReason
 
 namespace Pumpkin.C17
 
@@ -53,6 +54,26 @@ theorem accepted_model_inference (m : Model) (prem : List Atom) (q : Atom)
     cases hp' with
     | head => rw [Atom.neg_holds, hq]; rfl
     | tail _ h' => exact hp p h'
+
+/-- The implicit reasons of conflict analysis (for a predicate that is true but not literally on the
+trail; `Model/ImplicitReason.lean` mirrors the code arm by arm) entail the explained predicate for
+**every** integer value — no constraint, no domain involved. -/
+theorem implicit_reason_entails (trail queried : Atom) (r : List Atom) (hv : trail.var = queried.var)
+    (h : Pumpkin.Implicit.implicitReason trail queried = some r) (a : List Int)
+    (hr : ∀ p ∈ r, p.holds a = true) : queried.holds a = true := by
+  have hsame := Pumpkin.Implicit.implicit_same_var trail queried r hv h
+  unfold Atom.holds
+  apply Pumpkin.Implicit.implicit_entails trail queried r hv h
+  intro p hp
+  have := hr p hp
+  unfold Atom.holds at this
+  rw [hsame p hp] at this
+  exact this
+
+/-- … and never contain the explained predicate itself. -/
+theorem implicit_reason_progress (trail queried : Atom) (r : List Atom)
+    (h : Pumpkin.Implicit.implicitReason trail queried = some r) (hne : trail ≠ queried) : queried ∉ r :=
+  Pumpkin.Implicit.implicit_smaller trail queried r h hne
 
 example : checkInference [[0, 1, 2, 3], [0, 1, 2, 3]] (Cons.linLe [⟨1, 0, 0⟩, ⟨1, 0, 1⟩] 3)
     [Atom.ge 0 2] (some (Atom.le 1 1)) = true := by decide
